@@ -117,6 +117,12 @@ type World struct {
 	Atomic   bool // no scheduling points (sequential harnesses, set-up)
 	// AllVisible turns the visibility reduction off (every vfs call is a scheduling point).
 	AllVisible bool
+	// BeforePoint is called when a scheduled process reaches a scheduling point, before it yields:
+	// everything since its previous point was done by this process alone.
+	BeforePoint func(p *Proc)
+	// OnSync is called after a synchronisation operation of the sync shim completed
+	// (kind: mutex-lock, mutex-unlock, rwmutex-lock, …).
+	OnSync func(p *Proc, kind string)
 	clock      time.Time
 	Trace      []Event
 	KeepTrace  bool
@@ -226,6 +232,9 @@ type Proc struct {
 	FaultAt   int  // if >0: the vfs call with this ordinal (1-based, reads and writes included) fails with EIO
 	Faults    int
 	InCall    bool
+	// waitReady, when set, makes the process runnable only while it returns true (it is parked at a
+	// blocking synchronisation operation of the code under test: see WaitUntil)
+	waitReady func() bool
 	// Local is free for the harness (e.g. the process's handles).
 	Local map[string]interface{}
 }
@@ -252,6 +261,9 @@ func (p *Proc) point(op Op) {
 	}
 	if p.w.Atomic {
 		return
+	}
+	if p.w.BeforePoint != nil {
+		p.w.BeforePoint(p)
 	}
 	p.pending = op
 	p.w.yieldCh <- p
@@ -917,6 +929,46 @@ func (w *World) Yield(kind, name string) {
 	p.OpCount++
 	p.point(Op{Kind: kind, Name: name})
 	p.observe(kind, name)
+}
+
+// WaitUntil is a scheduling point at which the calling process is runnable only while ready()
+// holds: the blocking half of the sync shim (Mutex.Lock, WaitGroup.Wait, …). Waiting is visible to
+// the explorer: a process parked here is not an alternative, and when every unfinished process is
+// parked the execution is a deadlock. In atomic mode (sequential harnesses, set-up code) nobody else
+// can make ready() true, so a false ready() is a self-deadlock and panics.
+func (w *World) WaitUntil(kind string, ready func() bool) {
+	p := w.cur
+	if p == nil || w.Atomic {
+		if !ready() {
+			panic("sync: " + kind + " would block forever (no other goroutine can run)")
+		}
+		return
+	}
+	p.OpCount++
+	p.waitReady = ready
+	p.point(Op{Kind: kind})
+	p.waitReady = nil
+	p.observe(kind)
+	if w.OnSync != nil {
+		w.OnSync(p, kind)
+	}
+}
+
+// Note records a non-blocking synchronisation operation (Unlock, Done, …) in the process's
+// observation history; it is not a scheduling point (a release only enables others, and they are
+// considered at the next point anyway).
+func (w *World) Note(kind string) {
+	if p := w.cur; p != nil {
+		p.observe(kind)
+		if w.OnSync != nil && !w.Atomic {
+			w.OnSync(p, kind)
+		}
+	}
+}
+
+// Runnable reports whether the process can take a step.
+func (p *Proc) Runnable() bool {
+	return !p.Finished && (p.waitReady == nil || p.waitReady())
 }
 
 // Current returns the running process (nil outside any).
